@@ -609,6 +609,15 @@ def gen_cases(tier, rng, t, templates, samples, names_by_doc):
         ops = [['insert', dict(family='paragraph', name='odfdo_auto_%s' % g, variant=i, how='xml'), ['automatic', 'common'][i % 2], None] for i, g in enumerate(gap)]
         ops += [['insert', dict(family='paragraph', name=None, variant=5, how='xml'), 'automatic', None]] * 2 + [['reload']]
         cases.append(dict(doc='text', ops=ops, family='auto-name-gaps'))
+    # (b'') generated numbers across a digit-count boundary (9|10, 99|100, 2 next to 10: their decimal strings order differently
+    #       from their values), all of them automatic, and a long run of unnamed insertions that crosses the boundary by itself
+    for gap in ([9, 10], [8, 9, 10, 11], [99, 100], [2, 10], [10, 9], [100, 20, 3]):
+        ops = [['insert', dict(family='paragraph', name='odfdo_auto_%s' % g, variant=i, how='xml'), 'automatic', None] for i, g in enumerate(gap)]
+        ops += [['insert', dict(family='paragraph', name=None, variant=5 + j, how='xml'), 'automatic', None] for j in range(3)] + [['reload']]
+        cases.append(dict(doc='text', ops=ops, family='auto-name-gaps'))
+    for fam in ('paragraph', 'text'):
+        cases.append(dict(doc='text', ops=[['insert', dict(family=fam, name=None, variant=j, how='xml'), 'automatic', None] for j in range(13)] + [['reload']],
+                          family='auto-name-gaps'))
     # (b') styles of every standard family sitting in office:automatic-styles of styles.xml (as header / footer content
     #      produces them), on both sides of a merge and under a later insertion
     for fam in t['STD']:
